@@ -8,6 +8,7 @@ from ..core import FUNC, call_attr, calls_in, const, dotted, is_const, kwarg, no
 from .c09 import waiter_rule, _stored_in_cancelled_table
 
 EXPLANATION = [
+    'C16.lost-transport-senders: Host.on_transport_lost fails the pending response and, when none is pending, releases a locked command semaphore; _send_command raises TransportLostError once it holds the semaphore: no sender waits for ever after the loss.',
     "C16.gone-connection: Connection.cancel_on_disconnection cancels at once when the connection is no longer registered with its device (the 'disconnection' event it would wait for has already been emitted), and Device.disconnect refuses a link that is in none of the device's tables before sending anything.",
     'C16.settle-guard: every set_result / set_exception on a future kept in a channel attribute is under `not <future>.done()`, unless every coroutine waiting on that attribute clears it in a finally (a waiter that timed out leaves a cancelled future behind; settling it raises InvalidStateError in the middle of the link teardown).',
     'C16.uncalled-predicate: done / cancelled / is_set / locked / empty used as truth values are called (a bound method is always true).',
@@ -603,7 +604,30 @@ def gone_connection(ctx):
             'Device.disconnect sends HCI_Disconnect for a link the host no longer knows: the controller\'s failure report for the unknown handle is dropped by the host and disconnect() waits for ever', p.loc(dis))
 
 
+def lost_transport_senders(ctx):
+    """After the transport is lost every sender of an HCI command ends with an error.  A sender first waits for the command
+    semaphore and tests `transport_lost` only once it holds it; the semaphore may be locked with no command in flight (the
+    controller answered with Num_HCI_Command_Packets = 0).  Host.on_transport_lost therefore fails the pending response if
+    there is one, and otherwise releases a locked semaphore so that the waiting senders get in and fail."""
+    R, p = ctx.r, ctx.p
+    rule = 'C16.lost-transport-senders'
+    fn = p.find('bumble.host.Host.on_transport_lost')
+    sc = p.find('bumble.host.Host._send_command')
+    if fn is None or sc is None:
+        R.bad(rule, 'bumble.host.Host.on_transport_lost / _send_command', 'anchor missing')
+        return
+    fails = [c for c in calls_in(fn) if dotted(c.func) == 'self.pending_response.set_exception']
+    rel = [c for c in calls_in(fn) if dotted(c.func) == 'self.command_semaphore.release']
+    guarded = [c for c in rel if any(norm(t) == 'self.command_semaphore.locked()' and pol for t, pol in paths.flat_guards(c, stop=fn))]
+    R.check(bool(fails) and bool(guarded), rule, 'bumble.host.Host.on_transport_lost | senders released', 'the pending response fails, and a semaphore locked with nothing in flight is released',
+            'on_transport_lost fails the pending response but never releases a command semaphore that is locked with no command in flight (the controller had answered with zero command credits): every later send_command waits on acquire() for ever, and with it flush(), reset() and power_off()', p.loc(fn))
+    # the senders do test the flag once they hold the semaphore
+    tests = [n for n in walk_local(sc) if isinstance(n, ast.If) and norm(n.test) == 'self.transport_lost' and any(isinstance(x, ast.Raise) for x in n.body)]
+    R.check(bool(tests), rule, 'bumble.host.Host._send_command | refuses after the loss', 'raises once it holds the semaphore when the transport is lost', '_send_command no longer refuses to send after the transport was lost', p.loc(sc))
+
+
 RULES = [
+    ('C16.lost-transport-senders', lost_transport_senders),
     ('C16.gone-connection', gone_connection),
     ('C16.settle-guard', settle_guard_rule),
     ('C16.uncalled-predicate', uncalled_predicate_rule),
